@@ -53,6 +53,8 @@ type pkgView struct {
 	Locations []string `json:"locations,omitempty"`
 	Purl      string   `json:"purl,omitempty"`
 	PurlType  string   `json:"purl_type,omitempty"`
+	// sweep is the number of locations the package had in the location-count sweep
+	sweep int
 }
 
 func hasNonAlnum(s string) bool {
@@ -89,6 +91,10 @@ type pkgFailure struct {
 	idx   int
 	class string
 	err   error
+	// sweep: found with the synthetic location lists of the location-count sweep (such a
+	// failure in a listed known class is honoured in replays too: the witness of the class
+	// is a real package)
+	sweep bool
 }
 
 // checkPackages applies the C14 oracle to the packages one extractor returned for one
@@ -103,7 +109,7 @@ func checkPackages(ex filesystem.Extractor, pkgs []*extractor.Package) (views []
 		cp[i] = &q
 	}
 	fail := func(i int, class string, format string, a ...any) {
-		fails = append(fails, pkgFailure{i, class, fmt.Errorf(format, a...)})
+		fails = append(fails, pkgFailure{idx: i, class: class, err: fmt.Errorf(format, a...)})
 	}
 	guard := func(i int, what string, f func()) (ok bool) {
 		defer func() {
@@ -188,6 +194,105 @@ func checkPackages(ex filesystem.Extractor, pkgs []*extractor.Package) (views []
 			fail(-1, "", "%s: packageindex.GetAll returns %d packages, %d have a purl", ex.Name(), n, countNonNil(purls))
 		}
 	})
+	strs := make([]string, len(cp))
+	for i := range views {
+		strs[i] = views[i].Purl
+	}
+	checkConversions(ex, cp, purls, strs, fail, guard)
+	// the same packages with 0, 1, 2, 3, 4 and 5+ locations (what nested archives, included
+	// requirement files, go.sum neighbours produce) through the same conversions
+	sw := make([]*extractor.Package, len(cp))
+	swPurls := make([]*purl.PackageURL, len(cp))
+	swStrs := make([]string, len(cp))
+	for i, p := range cp {
+		q := *p
+		q.Locations = sweepLocations(p, i)
+		sw[i] = &q
+		views[i].sweep = len(q.Locations)
+	}
+	failSw := func(i int, class string, format string, a ...any) {
+		n := -1
+		if i >= 0 && i < len(sw) {
+			n = len(sw[i].Locations)
+		}
+		fail(i, class, "with the package's locations replaced by %d locations %q: "+format, append([]any{n, locsOf(sw, i)}, a...)...)
+		fails[len(fails)-1].sweep = true
+	}
+	guardSw := func(i int, what string, f func()) bool {
+		return guard(i, what+" (location-count sweep)", f)
+	}
+	for i, p := range sw {
+		i, p := i, p
+		guardSw(i, "ToPURL", func() {
+			swPurls[i] = ex.ToPURL(p)
+			if swPurls[i] != nil {
+				swStrs[i] = swPurls[i].String()
+			}
+		})
+		guardSw(i, "Package.Ecosystem", func() { _ = p.Ecosystem() })
+	}
+	checkConversions(ex, sw, swPurls, swStrs, failSw, guardSw)
+	return views, fails
+}
+
+func locsOf(cp []*extractor.Package, i int) []string {
+	if i >= 0 && i < len(cp) {
+		return cp[i].Locations
+	}
+	return nil
+}
+
+// sweepLocations gives package i of a file a location list of 0..6 entries (the count is a
+// function of the package, so that replays are stable): the package's own first location
+// followed by paths nested under it (as for nested archives) or by unrelated paths.
+func sweepLocations(p *extractor.Package, i int) []string {
+	h := 0
+	for _, c := range []byte(p.Name + "\x00" + p.Version) {
+		h = (h*31 + int(c)) & 0xffff
+	}
+	n := (h + i) % 7
+	base := "var/lib/db/status"
+	if len(p.Locations) > 0 {
+		base = p.Locations[0]
+	}
+	var out []string
+	for j := 0; j < n; j++ {
+		switch {
+		case j == 0:
+			out = append(out, base)
+		case h&8 == 0:
+			out = append(out, out[j-1]+"/"+[]string{"nested.jar", "META-INF/maven/g/a/pom.properties", "lib é/inner file.jar"}[(h+j)%3])
+		default:
+			out = append(out, []string{"sub/base.txt", "go.sum", "home/user/.vscode/extensions/ext-1.0", "other dir/reqs (dev).txt", "ci/é.txt", "x"}[(h+j)%6]+strings.Repeat("_", j/6))
+		}
+	}
+	return out
+}
+
+// missingLocations returns the locations that do not occur verbatim in text, each location
+// being matched against its own piece of the text (longest first).
+func missingLocations(text string, locs []string) []string {
+	order := append([]string{}, locs...)
+	sort.SliceStable(order, func(i, j int) bool { return len(order[i]) > len(order[j]) })
+	var missing []string
+	for _, l := range order {
+		if l == "" {
+			continue
+		}
+		k := strings.Index(text, l)
+		if k < 0 {
+			missing = append(missing, l)
+			continue
+		}
+		text = text[:k] + "\x00" + text[k+len(l):]
+	}
+	return missing
+}
+
+// checkConversions decides the record-preservation part of C14 for one package list: result
+// proto, CycloneDX and SPDX records against the packages and their purls (strs = printed
+// purls, "" where a package has none).
+func checkConversions(ex filesystem.Extractor, cp []*extractor.Package, purls []*purl.PackageURL, strs []string, fail func(i int, class string, format string, a ...any), guard func(i int, what string, f func()) bool) {
 	res := &scalibr.ScanResult{
 		Version: "verif", StartTime: time.Unix(1700000000, 0), EndTime: time.Unix(1700000001, 0),
 		Status:       &plugin.ScanStatus{Status: plugin.ScanStatusSucceeded},
@@ -229,7 +334,7 @@ func checkPackages(ex filesystem.Extractor, pkgs []*extractor.Package) (views []
 			if pu == nil {
 				continue
 			}
-			if pq.GetPurl() != views[i].Purl || pq.GetType() != pu.Type || pq.GetNamespace() != pu.Namespace || pq.GetName() != pu.Name || pq.GetVersion() != pu.Version || pq.GetSubpath() != pu.Subpath {
+			if pq.GetPurl() != strs[i] || pq.GetType() != pu.Type || pq.GetNamespace() != pu.Namespace || pq.GetName() != pu.Name || pq.GetVersion() != pu.Version || pq.GetSubpath() != pu.Subpath {
 				fail(i, "", "%s: proto purl %v differs from package purl %#v", ex.Name(), pq, *pu)
 			}
 			if len(pq.GetQualifiers()) != len(pu.Qualifiers) {
@@ -255,8 +360,8 @@ func checkPackages(ex filesystem.Extractor, pkgs []*extractor.Package) (views []
 			if c.Name != p.Name || c.Version != p.Version {
 				fail(i, "", "%s: CycloneDX component is %q@%q, package is %q@%q", ex.Name(), c.Name, c.Version, p.Name, p.Version)
 			}
-			if c.PackageURL != views[i].Purl {
-				fail(i, "", "%s: CycloneDX component purl %q, package purl %q", ex.Name(), c.PackageURL, views[i].Purl)
+			if c.PackageURL != strs[i] {
+				fail(i, "", "%s: CycloneDX component purl %q, package purl %q", ex.Name(), c.PackageURL, strs[i])
 			}
 			var occ []string
 			if c.Evidence != nil && c.Evidence.Occurrences != nil {
@@ -277,11 +382,12 @@ func checkPackages(ex filesystem.Extractor, pkgs []*extractor.Package) (views []
 			return
 		}
 		type key struct{ name, version, locator string }
-		have := map[key]int{}
+		have := map[key][]string{} // source infos of the records with that key, unconsumed
 		for _, sp := range doc.Packages {
 			for _, ref := range sp.PackageExternalReferences {
 				if ref.RefType == "purl" {
-					have[key{sp.PackageName, sp.PackageVersion, ref.Locator}]++
+					k := key{sp.PackageName, sp.PackageVersion, ref.Locator}
+					have[k] = append(have[k], sp.PackageSourceInfo)
 				}
 			}
 		}
@@ -289,15 +395,45 @@ func checkPackages(ex filesystem.Extractor, pkgs []*extractor.Package) (views []
 			if pu == nil || pu.Name == "" || pu.Version == "" {
 				continue // documented skips of ToSPDX23
 			}
-			k := key{pu.Name, pu.Version, views[i].Purl}
-			if have[k] == 0 {
-				fail(i, "", "%s: SPDX document has no package %q@%q with purl locator %q", ex.Name(), pu.Name, pu.Version, views[i].Purl)
-			} else {
-				have[k]--
+			k := key{pu.Name, pu.Version, strs[i]}
+			cands := have[k]
+			if len(cands) == 0 {
+				fail(i, "", "%s: SPDX document has no package %q@%q with purl locator %q", ex.Name(), pu.Name, pu.Version, strs[i])
+				continue
 			}
+			// locations: the SPDX record carries them in its source-info text; every location
+			// of the package has to be there verbatim
+			locs := cp[i].Locations
+			pick := -1
+			for c, info := range cands {
+				if len(missingLocations(info, locs)) == 0 {
+					pick = c
+					break
+				}
+			}
+			if pick < 0 {
+				pick = 0
+				info := cands[0]
+				missing := missingLocations(info, locs)
+				class := ""
+				if len(locs) >= 3 && len(missingLocations(info, locs[:2])) == 0 && strings.Contains(info, fmt.Sprintf("%d locations", len(locs))) {
+					// the record gives the number of locations and spells out the first two
+					class = "c14.spdx_source_info_names_two_locations"
+				}
+				fail(i, class, "%s: SPDX package %q@%q does not carry the package's locations: source info %q lacks %q (locations %q)", ex.Name(), pu.Name, pu.Version, info, missing, locs)
+			}
+			have[k] = append(append([]string{}, cands[:pick]...), cands[pick+1:]...)
 		}
 	})
-	return views, fails
+}
+
+func keysSorted(m map[string]bool) []string {
+	out := make([]string, 0, len(m))
+	for k := range m {
+		out = append(out, k)
+	}
+	sort.Strings(out)
+	return out
 }
 
 func debugStack() []byte { return debug.Stack() }
@@ -362,6 +498,9 @@ type c14FixtureCase struct {
 	Path      string  `json:"path"`    // path handed to the extractor
 	Index     int     `json:"index"`
 	Package   pkgView `json:"package"`
+	// OSRelease is the os-release file written into the scan root before the extraction
+	// (only for OS extractors; nil: the fixture tree as it is).
+	OSRelease *osRelFile `json:"os_release,omitempty"`
 }
 
 // productionPaths lists, per extractor, paths a production scan would present a file under;
@@ -574,6 +713,60 @@ func scratchDir(t *testing.T) string {
 	return t.TempDir()
 }
 
+// isOSExtractor: the extractor lives under extractor/filesystem/os (those read os-release).
+func isOSExtractor(ex filesystem.Extractor) bool {
+	t := reflect.TypeOf(ex)
+	for t.Kind() == reflect.Pointer {
+		t = t.Elem()
+	}
+	return strings.Contains(t.PkgPath(), "/extractor/filesystem/os/")
+}
+
+// placeOSRelease writes the os-release file below root (nil: nothing) and returns the
+// function that puts things back. Roots that already hold an os-release are left alone.
+func placeOSRelease(root string, f *osRelFile) (func(), error) {
+	if f == nil {
+		return func() {}, nil
+	}
+	for _, p := range []string{"etc/os-release", "usr/lib/os-release"} {
+		if _, err := os.Lstat(filepath.Join(root, p)); err == nil {
+			return nil, fmt.Errorf("%s exists in the fixture tree", p)
+		}
+	}
+	if f.Path == "" {
+		return func() {}, nil
+	}
+	// directories created here are removed again
+	var created []string
+	dir := filepath.Dir(filepath.Join(root, f.Path))
+	for d := dir; d != root && len(d) > len(root); d = filepath.Dir(d) {
+		if _, err := os.Stat(d); err == nil {
+			break
+		}
+		created = append(created, d)
+	}
+	if err := os.MkdirAll(dir, 0o755); err != nil {
+		return nil, err
+	}
+	full := filepath.Join(root, f.Path)
+	if err := os.WriteFile(full, []byte(f.Content), 0o644); err != nil {
+		return nil, err
+	}
+	return func() {
+		_ = os.Remove(full)
+		for _, d := range created {
+			_ = os.Remove(d)
+		}
+	}, nil
+}
+
+func bucketLoc(n int) string {
+	if n >= 4 {
+		return "4_or_more"
+	}
+	return fmt.Sprint(n)
+}
+
 var skipExtractors = map[string]string{
 	"java/pomxmlnet": "needs the network (Maven registry client)",
 }
@@ -612,7 +805,7 @@ func TestC14_fixtures(t *testing.T) {
 	exs := allFilesystemExtractors()
 	typesSeen := map[string]int{}
 	knownSeen := map[string]bool{}
-	var nFixtures, nUsed, nNoPath, nPackages, nErrs int
+	var nFixtures, nUsed, nNoPath, nPackages, nErrs, nVariantPackages int
 	var noFixture, noPackages, noPath []string
 	for xi, ex := range exs {
 		if why, skip := skipExtractors[ex.Name()]; skip {
@@ -639,6 +832,7 @@ func TestC14_fixtures(t *testing.T) {
 		sort.Strings(files)
 		exPackages := 0
 		for fi, f := range files {
+			fixturePkgs := 0
 			rel, _ := filepath.Rel(work, f) // testdata/...
 			repoRel, _ := filepath.Rel(root, filepath.Join(pkgDir, rel))
 			st, err := os.Stat(f)
@@ -678,61 +872,95 @@ func TestC14_fixtures(t *testing.T) {
 				continue
 			}
 			nUsed++
-			inv, xerr, pan, timedOut := runExtractReal(ex, scanRoot, scanPath)
-			if timedOut {
-				col.Note("Extract of %s on %s did not return within 40s (C02's business); skipped", ex.Name(), repoRel)
-				continue
+			// OS package databases are read next to an os-release file: every form of it
+			variants := []*osRelFile{nil}
+			var variantClass []string
+			if isOSExtractor(ex) {
+				for _, v := range osRelVariants(fi + xi) {
+					variants = append(variants, v.file())
+					variantClass = append(variantClass, v.class())
+				}
 			}
-			if pan != nil {
-				col.Note("Extract of %s on %s panicked (C02's business): %v", ex.Name(), repoRel, pan)
-				continue
-			}
-			if xerr != nil {
-				nErrs++
-			}
-			views, fails := checkPackages(ex, inv.Packages)
-			failBy := map[int][]pkgFailure{}
-			for _, fl := range fails {
-				failBy[fl.idx] = append(failBy[fl.idx], fl)
-			}
-			report := func(i int, v pkgView) bool {
-				cs := c14FixtureCase{Extractor: ex.Name(), Fixture: filepath.ToSlash(repoRel), Root: filepath.ToSlash(caseRoot), Path: scanPath, Index: i, Package: v}
-				var err error
-				for _, fl := range failBy[i] {
-					if fl.class != "" && col.IsKnown(fl.class) {
-						col.Excluded(fl.class)
-						if !knownSeen[fl.class] {
-							knownSeen[fl.class] = true
+			for vi, osrel := range variants {
+				vclass := ""
+				if vi > 0 {
+					vclass = variantClass[vi-1]
+					if vi > 6 && fixturePkgs > 60 {
+						break // large databases: the first variants only (they rotate with the fixture)
+					}
+				}
+				restore, werr := placeOSRelease(scanRoot, osrel)
+				if werr != nil {
+					col.Note("could not place os-release for %s: %v", repoRel, werr)
+					continue
+				}
+				inv, xerr, pan, timedOut := runExtractReal(ex, scanRoot, scanPath)
+				restore()
+				if timedOut {
+					col.Note("Extract of %s on %s did not return within 40s (C02's business); skipped", ex.Name(), repoRel)
+					break
+				}
+				if pan != nil {
+					col.Note("Extract of %s on %s panicked (C02's business): %v", ex.Name(), repoRel, pan)
+					break
+				}
+				if xerr != nil && vi == 0 {
+					nErrs++
+				}
+				if vi == 0 {
+					fixturePkgs = len(inv.Packages)
+				}
+				views, fails := checkPackages(ex, inv.Packages)
+				failBy := map[int][]pkgFailure{}
+				for _, fl := range fails {
+					failBy[fl.idx] = append(failBy[fl.idx], fl)
+				}
+				report := func(i int, v pkgView) bool {
+					cs := c14FixtureCase{Extractor: ex.Name(), Fixture: filepath.ToSlash(repoRel), Root: filepath.ToSlash(caseRoot), Path: scanPath, Index: i, Package: v, OSRelease: osrel}
+					var err error
+					for _, fl := range failBy[i] {
+						if fl.class != "" && col.IsKnown(fl.class) {
+							col.Excluded(fl.class)
+							if !knownSeen[fl.class] {
+								knownSeen[fl.class] = true
+							}
+							continue
 						}
-						continue
+						if err == nil {
+							err = fl.err
+						}
 					}
-					if err == nil {
-						err = fl.err
+					o := ev.Outcome{
+						NonTrivial: v.Purl != "" && (hasNonAlnum(v.Name) || hasNonAlnum(v.Version)),
+						Classes:    []string{"fixture_package", "extractor_" + ex.Name(), fmt.Sprintf("locations_%s", bucketLoc(len(v.Locations))), fmt.Sprintf("sweep_locations_%s", bucketLoc(v.sweep))},
+						Key:        ex.Name() + "\x00" + v.Purl,
+					}
+					if v.Purl == "" {
+						o.Classes = append(o.Classes, "no_purl")
+					}
+					if vclass != "" {
+						o.Classes = append(o.Classes, "os_release_variant", "fixture_"+vclass, "fixture_"+vclass+"_"+ex.Name())
+					}
+					return e.Report(cs, o, err)
+				}
+				for i, v := range views {
+					if vi == 0 {
+						nPackages++
+						exPackages++
+						if v.PurlType != "" {
+							typesSeen[v.PurlType]++
+						}
+					} else {
+						nVariantPackages++
+					}
+					if !report(i, v) {
+						return
 					}
 				}
-				o := ev.Outcome{
-					NonTrivial: v.Purl != "" && (hasNonAlnum(v.Name) || hasNonAlnum(v.Version)),
-					Classes:    []string{"fixture_package", "extractor_" + ex.Name()},
-					Key:        ex.Name() + "\x00" + v.Purl,
-				}
-				if v.Purl == "" {
-					o.Classes = append(o.Classes, "no_purl")
-				}
-				return e.Report(cs, o, err)
-			}
-			for i, v := range views {
-				nPackages++
-				exPackages++
-				if v.PurlType != "" {
-					typesSeen[v.PurlType]++
-				}
-				if !report(i, v) {
-					return
-				}
-			}
-			if len(failBy[-1]) > 0 {
-				if !report(-1, pkgView{Extractor: ex.Name()}) {
-					return
+				if len(failBy[-1]) > 0 {
+					if !report(-1, pkgView{Extractor: ex.Name()}) {
+						return
+					}
 				}
 			}
 		}
@@ -747,6 +975,7 @@ func TestC14_fixtures(t *testing.T) {
 	col.SetExtra("c14_fixtures_without_accepted_path", nNoPath)
 	col.SetExtra("c14_fixture_packages", nPackages)
 	col.SetExtra("c14_fixture_extract_errors", nErrs)
+	col.SetExtra("c14_fixture_packages_under_os_release_variants", nVariantPackages)
 	col.SetExtra("c14_purl_types_seen", typesSeen)
 	if len(noFixture) > 0 {
 		col.Note("extractors without a testdata directory: %s", strings.Join(noFixture, ", "))
@@ -807,7 +1036,12 @@ func propC14Fixture(col *ev.Collector, honourKnown bool) func(cs c14FixtureCase)
 		if !ex.FileRequired(realFileAPI{scanRoot, cs.Path}) {
 			return ev.Outcome{}, fmt.Errorf("harness: FileRequired(%s) is false", cs.Path)
 		}
+		restore, werr := placeOSRelease(scanRoot, cs.OSRelease)
+		if werr != nil {
+			return ev.Outcome{}, fmt.Errorf("harness: %v", werr)
+		}
 		inv, _, pan, timedOut := runExtractReal(ex, scanRoot, cs.Path)
+		restore()
 		if pan != nil || timedOut {
 			return ev.Outcome{}, nil
 		}
@@ -816,7 +1050,7 @@ func propC14Fixture(col *ev.Collector, honourKnown bool) func(cs c14FixtureCase)
 			if fl.idx != cs.Index {
 				continue
 			}
-			if honourKnown && fl.class != "" && col.IsKnown(fl.class) {
+			if (honourKnown || fl.sweep) && fl.class != "" && col.IsKnown(fl.class) {
 				continue
 			}
 			return ev.Outcome{}, fl.err
@@ -851,6 +1085,10 @@ type c14RenderedCase struct {
 	Hostile bool             `json:"hostile"`
 	Records []layouts.Record `json:"records"`
 	Layout  layouts.Layout   `json:"layout"`
+	// OSRelease is the os-release file next to the database (dpkg and apk; nil: the default
+	// one), OSClass the form of its VERSION_ID.
+	OSRelease *osRelFile `json:"neighbour_os_release,omitempty"`
+	OSClass   string     `json:"os_class,omitempty"`
 }
 
 // gradleEmptyArtifact is the class predicate of c14.empty_purl_name_java_gradlelockfile: the
@@ -878,6 +1116,11 @@ func genC14Rendered(col *ev.Collector) func(t *rapid.T) c14RenderedCase {
 			}
 		}
 		c.Layout = layouts.DrawLayout(t, c.Format, len(c.Records))
+		if c.Format == "dpkg" || c.Format == "apk" {
+			// the OS package databases are read next to an os-release file
+			spec := drawOSRelease(t)
+			c.OSRelease, c.OSClass = spec.file(), spec.class()
+		}
 		return c
 	}
 }
@@ -890,14 +1133,14 @@ func propC14Rendered(col *ev.Collector, honourKnown bool) func(c c14RenderedCase
 		}
 		content := layouts.Render(c.Format, c.Records, c.Layout)
 		path := layouts.Path(c.Format, c.Layout)
-		inv, _, herr := extractBytes(ex, path, content)
+		inv, _, herr := extractBytesFS(ex, path, content, layouts.Files(c.Format, c.Records, c.Layout), c.OSRelease)
 		if herr != nil {
 			return ev.Outcome{}, herr
 		}
 		views, fails := checkPackages(ex, inv.Packages)
 		var firstErr error
 		for _, fl := range fails {
-			if honourKnown && fl.class != "" && col.IsKnown(fl.class) {
+			if (honourKnown || fl.sweep) && fl.class != "" && col.IsKnown(fl.class) {
 				col.Excluded(fl.class)
 				continue
 			}
@@ -911,6 +1154,9 @@ func propC14Rendered(col *ev.Collector, honourKnown bool) func(c c14RenderedCase
 			}
 			if firstErr == nil {
 				firstErr = fmt.Errorf("%v\n--- input file %s ---\n%s", fl.err, path, clip(content, 2000))
+				if c.OSRelease != nil {
+					firstErr = fmt.Errorf("%v\n--- %s ---\n%s", firstErr, c.OSRelease.Path, c.OSRelease.Content)
+				}
 			}
 		}
 		nt := false
@@ -929,6 +1175,18 @@ func propC14Rendered(col *ev.Collector, honourKnown bool) func(c c14RenderedCase
 		if len(views) == 0 {
 			classes = append(classes, "rendered_no_package")
 		}
+		if c.OSClass != "" && len(views) > 0 {
+			classes = append(classes, "rendered_"+c.Format+"_"+c.OSClass)
+			if c.OSRelease != nil && c.OSRelease.Path != "etc/os-release" {
+				classes = append(classes, "rendered_os_release_at_"+strings.NewReplacer("/", "_", "-", "_").Replace(c.OSRelease.Path+"."))
+			}
+		}
+		nlocs := map[string]bool{}
+		for _, v := range views {
+			nlocs["rendered_locations_"+bucketLoc(len(v.Locations))] = true
+			nlocs["sweep_locations_"+bucketLoc(v.sweep)] = true
+		}
+		classes = append(classes, keysSorted(nlocs)...)
 		return ev.Outcome{NonTrivial: nt, Classes: classes, Key: ex.Name() + "\x00" + strings.Join(keys, "\x00")}, firstErr
 	}
 }
